@@ -60,6 +60,12 @@ def cases(tier, seed, phase):
                     stream_len = sum(map(len, reps))
                     cuts = sorted(rng.sample(range(1, stream_len), min(rng.choice([0, 1, 3, 6]), stream_len - 1)))
                     yield {'lmtp': lmtp, 'methods': ms, 'replies': [r.hex() for r in reps], 'cuts': cuts}
+    for lmtp in (False, True):
+        for pipelining in (True, False):
+            for n in (1, 2, 3):
+                for bad in range(2, 3 + n):
+                    for cuts in ([], [7, 30], [25, 26, 60]):
+                        yield {'kind': 'garbage', 'lmtp': lmtp, 'pipelining': pipelining, 'nrcpt': n, 'bad_at': bad, 'cuts': cuts}
     for j in range(2500 if tier == 'quick' else 40000):
         def mk(j=j):
             rng = rng_for(seed, 'c10r', j)
@@ -78,7 +84,55 @@ def cases(tier, seed, phase):
         yield mk
 
 
+def run_garbage(case, model):
+    """One line of the reply stream is no reply at all. The call that meets it fails; the replies after it must still go to the
+    commands that caused them (the relay client goes on with RSET / QUIT on such a connection)."""
+    from slimta.smtp.client import Client, LmtpClient
+    from slimta.smtp import BadReply
+    n = case['nrcpt']
+    lmtp = case['lmtp']
+    reps = [b'220 r0 ready\r\n', b'250-r1 hello\r\n250 PIPELINING\r\n' if case['pipelining'] else b'250 r1 hello\r\n']
+    for k in range(2, 2 + 1 + n):
+        reps.append(b'250 r%d ok\r\n' % k)
+    reps += [b'250 r%d reset\r\n' % (3 + n), b'221 r%d bye\r\n' % (4 + n)]
+    bad = case['bad_at']
+    reps[bad] = b'this is line r%d and no reply\r\n' % bad
+    stream = b''.join(reps)
+    sock = ScriptSocket(cut(stream, case['cuts']))
+    cl = (LmtpClient if lmtp else Client)(sock, address=('srv', 25))
+    objs = {}
+    failures = 0
+    calls = [('banner', cl.get_banner, ()), ('hello', cl.lhlo if lmtp else cl.ehlo, ('me',)), ('mail', cl.mailfrom, ('s@x',))]
+    calls += [('rcpt', cl.rcptto, ('r%d@y' % i,)) for i in range(n)]
+    calls += [('rset', cl.rset, ()), ('quit', cl.quit, ())]
+    for k, (name, fn, args) in enumerate(calls):
+        try:
+            objs[k] = fn(*args)
+        except BadReply:
+            failures += 1
+        except WouldBlock:
+            break
+    hits = []
+    if failures != 1:
+        hits.append(hit('c10.garbage-line-not-reported-once', 'a line that is no reply was not reported exactly once', observed=failures, expected=1))
+    for k, r in sorted(objs.items()):
+        if r.code is None:
+            if k > bad and not (k == 1):
+                hits.append(hit('c10.reply-lost-after-garbage', 'a command after the garbage line never got its reply', observed={'slot': k, 'method': calls[k][0]}))
+                break
+            continue
+        raw = r.raw_message or ''
+        if r.code != reps[k][:3].decode() or ('r%d ' % k) not in raw:
+            hits.append(hit('c10.reply-paired-with-wrong-command', 'after a line that was no reply, a returned Reply holds another command\'s reply',
+                            observed={'slot': k, 'method': calls[k][0], 'code': r.code, 'text': raw}, expected=reps[k].decode('latin-1')))
+            break
+    key = ('garbage', lmtp, case['pipelining'], n, bad, tuple(case['cuts']))
+    return CaseResult(None, hits, key, ['garbage-line', 'pipelining' if case['pipelining'] else 'no-pipelining'])
+
+
 def run_case(case, model):
+    if case.get('kind') == 'garbage':
+        return run_garbage(case, model)
     from slimta.smtp.client import Client, LmtpClient
     from slimta.smtp import BadReply, ConnectionLost
     reps = [bytes.fromhex(r) for r in case['replies']]
